@@ -32,12 +32,26 @@ type config struct {
 	// BAny: the second clause is When(Any()) instead of When(2): it overlaps the first one (a call
 	// with 1 still selects the first-registered clause) and also takes the calls with 9
 	BAny bool `json:"b_any,omitempty"`
+	// Dup: the configured values repeat in adjacent pairs (b, b, b+1, b+1, …) instead of
+	// being all different: a position is still a position when its value equals its neighbour's
+	Dup bool `json:"dup,omitempty"`
 }
 
 func vals(base, n int) []interface{} {
 	v := make([]interface{}, n)
 	for i := range v {
 		v[i] = base + i
+	}
+	return v
+}
+
+// valsOf are the configured values of a sequence under cf.
+func valsOf(cf config, base, n int) []interface{} {
+	v := vals(base, n)
+	if cf.Dup {
+		for i := range v {
+			v[i] = base + i/2
+		}
 	}
 	return v
 }
@@ -77,20 +91,20 @@ func install(cf config) *world {
 	}
 	var wh *mocker.When
 	if cf.Build == "chain" {
-		wh = seq(m.Return, vals(100, cf.LD))
+		wh = seq(m.Return, valsOf(cf, 100, cf.LD))
 		if cf.LA > 0 {
-			wh = seq(wh.When(1).Return, vals(200, cf.LA))
+			wh = seq(wh.When(1).Return, valsOf(cf, 200, cf.LA))
 		}
 		if cf.LB > 0 {
-			wh = seq(wh.When(condB(cf)).Return, vals(300, cf.LB))
+			wh = seq(wh.When(condB(cf)).Return, valsOf(cf, 300, cf.LB))
 		}
 	} else {
-		wh = m.Returns(vals(100, cf.LD)...)
+		wh = m.Returns(valsOf(cf, 100, cf.LD)...)
 		if cf.LA > 0 {
-			wh = wh.When(1).Returns(vals(200, cf.LA)...)
+			wh = wh.When(1).Returns(valsOf(cf, 200, cf.LA)...)
 		}
 		if cf.LB > 0 {
-			wh = wh.When(condB(cf)).Returns(vals(300, cf.LB)...)
+			wh = wh.When(condB(cf)).Returns(valsOf(cf, 300, cf.LB)...)
 		}
 	}
 	_ = wh
@@ -117,6 +131,16 @@ func expect(base, n, k int) int {
 	return base + k
 }
 
+func expectOf(cf config, base, n, k int) int {
+	if !cf.Dup {
+		return expect(base, n, k)
+	}
+	if k >= n {
+		k = n - 1
+	}
+	return base + k/2
+}
+
 // SeqCase is the replay artefact of the sequential part.
 type SeqCase struct {
 	Sub   string `json:"sub"`
@@ -141,13 +165,13 @@ func runSeq(cf config, calls []int) string {
 		var want int
 		switch {
 		case a == 1 && cf.LA > 0:
-			want = expect(200, cf.LA, kA)
+			want = expectOf(cf, 200, cf.LA, kA)
 			kA++
 		case (a == 2 || cf.BAny) && cf.LB > 0:
-			want = expect(300, cf.LB, kB)
+			want = expectOf(cf, 300, cf.LB, kB)
 			kB++
 		default:
-			want = expect(100, cf.LD, kD)
+			want = expectOf(cf, 100, cf.LD, kD)
 			kD++
 		}
 		if got != want {
@@ -173,6 +197,9 @@ func seq(c *vk.Ctx) {
 					cfgs = append(cfgs, config{Target: "func", Build: build, LA: la, LB: lb, LD: ld})
 					if la > 0 && lb > 0 {
 						cfgs = append(cfgs, config{Target: "func", Build: build, LA: la, LB: lb, LD: ld, BAny: true})
+					}
+					if la >= 3 || lb >= 3 || ld >= 3 {
+						cfgs = append(cfgs, config{Target: "func", Build: build, LA: la, LB: lb, LD: ld, Dup: true})
 					}
 				}
 			}
@@ -229,7 +256,7 @@ func seq(c *vk.Ctx) {
 				min := vk.Minimize(calls, func(s []int) bool { return runSeq(cf, s) != "" })
 				g := runSeq(cf, min)
 				cs.Calls = min
-				c.Violate(fmt.Sprintf("seq target=%s build=%s la=%d lb=%d%s ld=%d calls=%v class=%s", cf.Target, cf.Build, cf.LA, cf.LB, map[bool]string{true: "(Any)", false: ""}[cf.BAny], cf.LD, argsOf(min), cls(g)), g, cs)
+				c.Violate(fmt.Sprintf("seq target=%s build=%s la=%d lb=%d%s ld=%d calls=%v class=%s", cf.Target, cf.Build, cf.LA, cf.LB, map[bool]string{true: "(Any)", false: ""}[cf.BAny]+map[bool]string{true: " dup", false: ""}[cf.Dup], cf.LD, argsOf(min), cls(g)), g, cs)
 			}
 		}
 	}
